@@ -2,6 +2,7 @@ package gosym
 
 import (
 	"fmt"
+	"os"
 	"go/token"
 	"go/types"
 	"sort"
@@ -390,6 +391,12 @@ func (m *Machine) modelViolation(label string, extra []T, pos, msg string) smt.R
 		want = append(want, a.args...)
 	}
 	r, vals := m.S.CheckModel(m.C, extra, want)
+	if r == smt.Unknown {
+		if d := os.Getenv("VF_DUMP_UNKNOWN"); d != "" {
+			all := append(append([]T(nil), m.pc...), extra...)
+			os.WriteFile(fmt.Sprintf("%s/%s-%s-%d.smt2", d, m.name, label, len(m.Res.Trace)), []byte(smt.Script(m.C, all, false)), 0o644)
+		}
+	}
 	if r != smt.Sat {
 		return r
 	}
@@ -446,14 +453,16 @@ func (m *Machine) assert(label string, c T, pos string) {
 	switch m.modelViolation(label, extra, pos, "") {
 	case smt.Unsat:
 		m.Res.Asserts[label]++
+		m.addPC(c) // implied by the path condition: helps the simplifier, changes nothing
 	case smt.Unknown:
 		m.Res.Unknown[label]++
+	case smt.Sat:
+		// violated for some values: the path continues unconstrained so that every later
+		// obligation is decided independently of this one
+		if c.IsFalse() {
+			m.end(StOK, "path ends after failed assertion %s", label)
+		}
 	}
-	// continue under the asserted condition so later obligations are checked independently
-	if c.IsFalse() || !m.feasible(c) {
-		m.end(StOK, "path ends after failed assertion %s", label)
-	}
-	m.addPC(c)
 }
 
 // ---- input creation ----
